@@ -76,4 +76,6 @@ DEFS = {
     'rows_sorted': (['m'], 'forall(i, 0, len(m.pairs), forall(a, 0, len(m.pairs[i]), forall(b, a, len(m.pairs[i]), m.pairs[i][a].rank_student <= m.pairs[i][b].rank_student)))'),
     'lists_two_sided': (['rows'], "forall(i, 0, len(rows), forall(c, 0, len(rows[i]), has(rows[i][c], 'rank_lecturer') and has(rows[i][c], 'studentID') and has(rows[i][c], 'projectID')))"),
     'stab_vars': (['rows'], "forall(i, 0, len(rows), forall(c, 0, len(rows[i]), has(rows[i][c], 'alpha_var') and has(rows[i][c], 'beta_var')))"),
+
+    'is_max_luq': (['x'], 'forall(k, 0, self.model.num_lecturers, self.model.lec_upper_quotas[k] <= x) and exists(k, 0, self.model.num_lecturers, self.model.lec_upper_quotas[k] == x)'),
 }
